@@ -14,7 +14,7 @@ from xdsl.ir import Attribute, Block, Region
 from xdsl import irdl
 from xdsl.irdl import (AnyAttr, AnyOf, BaseAttr, EqAttrConstraint, IRDLOperation, RangeOf, RangeVarConstraint, VarConstraint, irdl_op_definition)
 
-LEVEL = "bounded_symbolic"
+LEVEL = "other"
 EXPLANATION = (
     "IRDL operation classes are generated from definition shapes (for each construct - operands, results, regions, successors - "
     "every sequence of single/optional/variadic definitions up to length 3 (2 for regions/successors) x every admissible "
